@@ -4,6 +4,7 @@ import ast
 from .. import libfacts, util
 from ..callgraph import CallGraph, LOOP, TRIO, NEWTHREAD, EXECUTOR, ANY
 from ..interp import Interp, Path, abs_value, exc_value, is_exc, show, strip_sites, subterms, NONE, REPRESENTATIVES
+from .. import slots
 from ..report import Undecided
 from . import common
 
@@ -418,7 +419,7 @@ def meta_chain(chk):
             chk.bad(rule, cls.qual, "runner_types %s: %s" % ([q.split(":")[-1] for q in listed], "; ".join(filter(None, ["missing %s (its payloads are never run)" % sorted(miss) if miss else "", "not concrete runners: %s" % sorted(extra) if extra else "", "duplicate flavours" if len(set(flav)) != len(flav) else ""]))), node=rt, stmt="runner_types")
         else:
             chk.ok(rule, cls.qual, "runner_types = all %d concrete runners with pairwise distinct flavours" % len(listed), node=rt)
-    launch = prog.method(META, "_launch_runners")
+    launch = slots.launcher(prog)
     outs = Interp(prog, launch, unroll=2).run()
     ok = True
     for o in outs:
@@ -447,7 +448,7 @@ def meta_chain(chk):
     if ok:
         chk.ok(rule, launch.qual, "one task running runner.run() per runner type; all of them returned", node=launch.node)
     # _manage_runners: exception-propagating join over all tasks + the unqueueing coroutine
-    mr = prog.method(META, "_manage_runners")
+    mr = slots.supervisor(prog)
     outs = Interp(prog, mr).run()
     ok = True
     joined = False
@@ -469,11 +470,11 @@ def meta_chain(chk):
             if not e[3]:
                 chk.bad(rule, mr.qual, "the join over the runner tasks is not awaited", node=mr.node, stmt="join-not-awaited")
                 ok = False
-            launched = [ev[1] for ev in o.path.events if ev[0] == "call" and ev[1][1] == ("attr", SELF, "_launch_runners")]
+            launched = [ev[1] for ev in o.path.events if ev[0] == "call" and ev[1][1] == ("attr", SELF, slots.launcher(prog).name)]
             if not launched or ("star", launched[0]) not in ct[2]:
                 chk.bad(rule, mr.qual, "the join does not wait for ALL runner tasks returned by _launch_runners (%s)" % [show(a) for a in ct[2]], node=mr.node, stmt="join-subset")
                 ok = False
-            if not any(a[0] == "call" and a[1] == ("attr", SELF, "_unqueue_payloads") for a in ct[2]):
+            if not any(a[0] == "call" and a[1] == ("attr", SELF, slots.unqueuer(prog).name) for a in ct[2]):
                 chk.bad(rule, mr.qual, "queued payloads are not registered while the runners are being watched (the unqueueing coroutine is not part of the join)", node=mr.node, stmt="unqueue-not-joined")
                 ok = False
     if not joined:
@@ -538,7 +539,7 @@ def meta_chain(chk):
                 ok = False
     # asyncio.run runs the supervising coroutine
     calls = [n for n in ast.walk(run.node) if isinstance(n, ast.Call) and prog.resolve(run.module, n.func) == "ext:asyncio.run"]
-    if len(calls) != 1 or not (calls[0].args and util.unparse(calls[0].args[0]) == "self._manage_runners()"):
+    if len(calls) != 1 or not (calls[0].args and util.unparse(calls[0].args[0]) == "self.%s()" % slots.supervisor(prog).name):
         chk.bad(rule, run.qual, "run() does not drive the supervising coroutine with asyncio.run", node=run.node, stmt="asyncio-run-target")
         ok = False
     if ok:
@@ -551,7 +552,7 @@ def meta_chain(chk):
         e = REPRESENTATIVES[label]
 
         def hook(it, path, ct, node, e=e):
-            if ct[0] == "call" and ct[1][0] == "attr" and ct[1][2] == "run" and ct[1][1] == ("attr", SELF, "_meta_runner"):
+            if ct[0] == "call" and ct[1][0] == "attr" and ct[1][2] == "run" and ct[1][1] == ("attr", SELF, slots.service_meta(prog)):
                 return [("raise", e)]
             return None
 
